@@ -340,8 +340,9 @@ def run(ctx, replay):
         for mm in mismatches[:20]:
             if (mm["stream"], str(mm["case_id"])) in flagged:
                 continue
-            dc = cfg.get("decisive_codes")
-            decisive = cfg.get("mismatch_is_violation", False) or (dc is not None and any(c in dc for c in mm.get("codes", [])))
+            stc = next((st for st in cfg["streams"] if st["name"] == mm["stream"]), {})
+            dc = stc.get("decisive_codes", cfg.get("decisive_codes"))
+            decisive = stc.get("mismatch_is_violation", cfg.get("mismatch_is_violation", False)) or (dc is not None and any(c in dc for c in mm.get("codes", [])))
             if decisive:
                 ctx.violations.append(dict(what="implementation differs from the proved model on a property-pinned observable",
                                            sig="model-mismatch", replay=mm, failing_input=True, stream=mm["stream"], case_id=mm["case_id"]))
